@@ -13,6 +13,7 @@ import ast
 from typing import Dict, List, Optional, Set, Tuple
 
 from ..db import ProgramDB, FuncInfo, ClassInfo, AnalysisError, unparse, own_nodes, dotted
+from ..cfg import CFG
 from ..facts import own_calls, call_attr, call_name, local_defs, resolve_call_target
 from ..framework import inst, HOLDS, VIOLATION, UNDECIDED, INFO, Instance
 from ..evalsites import site_model, is_eval_name, SiteModel
@@ -315,36 +316,66 @@ def rule_memo_on_pull(db: ProgramDB) -> List[Instance]:
                                     f"pulled here are lost for later evaluations", line=n.lineno))
     loops = 0
     for m in hi.methods.values():
-        for n in own_nodes(m.node):
-            if isinstance(n, ast.For) and isinstance(n.iter, ast.Attribute) and n.iter.attr == "iterable" \
-                    and isinstance(n.iter.value, ast.Name) and n.iter.value.id == "self":
-                loops += 1
-                tnames = {x.id for x in ast.walk(n.target) if isinstance(x, ast.Name)}
-                # first statement that hands the element out vs the statement storing it into self.values
-                stored_at = None
-                handed_at = None
-                for i, s in enumerate(n.body):
-                    if stored_at is None and isinstance(s, ast.Assign) and any(
-                            isinstance(t, ast.Subscript) and isinstance(t.value, ast.Attribute) and t.value.attr == "values"
-                            for t in s.targets) and {x.id for x in ast.walk(s.value) if isinstance(x, ast.Name)} & tnames:
-                        stored_at = i
-                    if stored_at is None and isinstance(s, ast.Expr) and isinstance(s.value, ast.Call) and call_attr(s.value) == "add" \
-                            and isinstance(s.value.func.value, ast.Name) and s.value.func.value.id == "self":
-                        stored_at = i
-                    # self.values.setdefault(id, v) / self.values.update({id: v}) store as well
-                    if stored_at is None and isinstance(s, ast.Expr) and isinstance(s.value, ast.Call) and call_attr(s.value) in ("setdefault", "update", "__setitem__") \
-                            and isinstance(s.value.func.value, ast.Attribute) and s.value.func.value.attr == "values" \
-                            and {x.id for a in s.value.args for x in ast.walk(a) if isinstance(x, ast.Name)} & tnames:
-                        stored_at = i
-                    if handed_at is None and any(isinstance(x, (ast.Yield, ast.YieldFrom, ast.Return, ast.Break))
-                                                 for x in [s] + list(own_nodes(s))):
-                        handed_at = i
-                ok = stored_at is not None and (handed_at is None or stored_at < handed_at)
-                out.append(inst("MEMO-ON-PULL", HOLDS if ok else VIOLATION, m, f"{m.short}[for … in self.iterable]",
-                                "every element pulled from the source is stored in `values` before it is handed out" if ok else
-                                "an element pulled from the source can be handed out (or skipped) without being stored in "
-                                "`values`: later evaluations would not see it, and a one-shot source cannot be pulled again",
-                                line=n.lineno))
+        pull_loops = [n for n in own_nodes(m.node) if isinstance(n, ast.For) and isinstance(n.iter, ast.Attribute) and n.iter.attr == "iterable"
+                      and isinstance(n.iter.value, ast.Name) and n.iter.value.id == "self"]
+        if not pull_loops:
+            continue
+        cfg = CFG(m)
+        for n in pull_loops:
+            loops += 1
+            tnames = {x.id for x in ast.walk(n.target) if isinstance(x, ast.Name)}
+            head = next(nd for nd in cfg.nodes if nd.kind == "for" and nd.stmt is n)
+
+            def stores(nd, tnames=tnames) -> bool:
+                s_ = nd.ast
+                if nd.kind != "stmt" or s_ is None:
+                    return False
+                if isinstance(s_, ast.Assign) and any(isinstance(t, ast.Subscript) and isinstance(t.value, ast.Attribute) and t.value.attr == "values"
+                                                      for t in s_.targets) and {x.id for x in ast.walk(s_.value) if isinstance(x, ast.Name)} & tnames:
+                    return True
+                if isinstance(s_, ast.Expr) and isinstance(s_.value, ast.Call):
+                    c = s_.value
+                    if call_attr(c) == "add" and isinstance(c.func.value, ast.Name) and c.func.value.id == "self":
+                        return True
+                    if call_attr(c) in ("setdefault", "update", "__setitem__") and isinstance(c.func.value, ast.Attribute) and c.func.value.attr == "values" \
+                            and {x.id for a in c.args for x in ast.walk(a) if isinstance(x, ast.Name)} & tnames:
+                        return True
+                return False
+
+            def edge_ok(e, tnames=tnames) -> bool:
+                """the branch on which the element is known to be memoised already needs no store"""
+                if e.kind != "n":
+                    return False
+                src = cfg.nodes[e.src]
+                if src.kind == "test" and isinstance(getattr(src.stmt, "test", None), ast.Compare):
+                    t = src.stmt.test
+                    if len(t.ops) == 1 and isinstance(t.ops[0], (ast.In, ast.NotIn)) and unparse(t.comparators[0]) in ("self.values", "self.values.keys()") \
+                            and {x.id for x in ast.walk(t.left) if isinstance(x, ast.Name)} & tnames:
+                        memoised_label = "T" if isinstance(t.ops[0], ast.In) else "F"
+                        if e.label == memoised_label:
+                            return False
+                return True
+
+            def leaves(nd) -> bool:
+                return nd.has_yield or nd.kind == "return" or nd.id in (head.id, cfg.exit) or (nd.kind == "stmt" and isinstance(nd.ast, ast.Break))
+            bad = None
+            for e in cfg.succ[head.id]:
+                if e.kind == "n" and e.label == "iter":
+                    first = cfg.nodes[e.dst]
+                    if stores(first):
+                        continue
+                    if leaves(first):
+                        bad = [e]
+                        continue
+                    p_ = cfg.find_path(first.id, leaves, kinds=("n",), blocked=stores, edge_ok=edge_ok)
+                    if p_ is not None:
+                        bad = [e] + p_
+            ok = bad is None
+            out.append(inst("MEMO-ON-PULL", HOLDS if ok else VIOLATION, m, f"{m.short}[for … in self.iterable]",
+                            "every element pulled from the source is stored in `values` before it is handed out" if ok else
+                            "an element pulled from the source can be handed out (or skipped) without being stored in "
+                            "`values`: later evaluations would not see it, and a one-shot source cannot be pulled again ("
+                            + " ".join(cfg.describe_path(bad)[:4]) + ")", line=n.lineno))
     if loops == 0:
         raise AnalysisError("HashedIterable: no loop over self.iterable found")
     # the source is wrapped lazily (a generator expression), once
@@ -355,10 +386,85 @@ def rule_memo_on_pull(db: ProgramDB) -> List[Instance]:
         assigns = [n for n in own_nodes(m.node) if isinstance(n, ast.Assign) and any(
             isinstance(t, ast.Attribute) and t.attr == "iterable" for t in n.targets)]
         for a in assigns:
-            lazy = isinstance(a.value, ast.GeneratorExp) or (isinstance(a.value, ast.Call) and dotted(a.value.func) in ("map", "iter", "filter"))
+            wrap = _wrapping_of(hi, a.value)
+            lazy = wrap is not None
             out.append(inst("MEMO-ON-PULL", HOLDS if lazy else VIOLATION, m, f"{m.short}[wraps the source lazily]",
                             f"`{unparse(a)[:70]}` wraps the source in a lazy iterator" if lazy else
                             f"`{unparse(a)[:70]}` materialises the source", line=a.lineno))
+            if wrap is not None:
+                filt = _wrapping_filters(wrap)
+                out.append(inst("MEMO-ON-PULL", VIOLATION if filt else HOLDS, m, f"{m.short}[every member of the source is wrapped]",
+                                f"`{filt}` leaves members of the supplied domain out while wrapping it: a domain member that is None / falsy / of some "
+                                f"type silently never ranges over the variable (let(object, domain=[None, 0]) loses None)" if filt else
+                                "the wrapping maps every member of the source to one wrapped value", line=a.lineno))
+    return out
+
+
+def _wrapping_of(hi: ClassInfo, v: ast.AST, depth: int = 0):
+    """the lazily evaluated expression / generator function that wraps the members of the source, or None when the source is
+    materialised.  Follows one level of the class's own helper (a generator method, or one that returns the lazy expression)."""
+    if isinstance(v, ast.GeneratorExp):
+        return v
+    if isinstance(v, ast.Call) and dotted(v.func) in ("map", "iter", "filter"):
+        return v
+    if depth == 0 and isinstance(v, ast.Call) and isinstance(v.func, ast.Attribute) and isinstance(v.func.value, ast.Name) \
+            and v.func.value.id in ("self", "cls", hi.name):
+        h = hi.methods.get(v.func.attr)
+        if h is not None:
+            if h.is_generator:
+                return h.node
+            rets = [r.value for r in own_nodes(h.node) if isinstance(r, ast.Return) and r.value is not None]
+            if len(rets) == 1:
+                return _wrapping_of(hi, rets[0], depth + 1)
+    return None
+
+
+def _wrapping_filters(wrap: ast.AST) -> Optional[str]:
+    """text of the condition under which a member of the source is NOT wrapped (None when every member is).  Skipping a member
+    that is memoised already is not a filter."""
+    if isinstance(wrap, ast.GeneratorExp):
+        for g in wrap.generators:
+            if g.ifs:
+                return unparse(g.ifs[0])
+        return None
+    if isinstance(wrap, ast.Call):
+        return unparse(wrap)[:60] if dotted(wrap.func) == "filter" else None
+    if isinstance(wrap, (ast.FunctionDef,)):
+        for lp in [x for x in own_nodes(wrap) if isinstance(x, ast.For)]:
+            for t in [x for x in ast.walk(lp) if isinstance(x, ast.If)]:
+                skips = any(isinstance(z, ast.Continue) for b in t.body for z in ast.walk(b))
+                if skips and not ("self.values" in unparse(t.test) or "seen" in unparse(t.test)):
+                    return unparse(t.test)
+        return None
+    return None
+
+
+def rule_source_not_delegated(db: ProgramDB) -> List[Instance]:
+    """The one-shot source of a lazily consumed domain lives as long as the wrapper.  `yield from <source>` would hand the
+    source to the consumer of ONE iteration: closing or dropping that iteration (an abandoned result iterator, the(...)
+    raising, an exception in user code) closes the source with it, and the members not pulled yet are lost for every later
+    evaluation.  The source is therefore pulled element by element (a for loop leaves its iterator open when it is left)."""
+    out = []
+    hi = db.cls("HashedIterable")
+    sample = ast.parse("def f(self):\n    yield from list(self.values.values())\n    yield from self.iterable\n").body[0]
+
+    def delegations(node) -> List[ast.AST]:
+        return [y for y in own_nodes(node) if isinstance(y, ast.YieldFrom) and isinstance(y.value, ast.Attribute) and y.value.attr == "iterable"]
+    if len(delegations(sample)) != 1:
+        raise AnalysisError("SOURCE-NOT-DELEGATED: the built-in positive example is no longer recognised")
+    n = 0
+    for m in hi.methods.values():
+        if m.cls is not hi or not m.is_generator:
+            continue
+        n += 1
+        d = delegations(m.node)
+        out.append(inst("SOURCE-NOT-DELEGATED", VIOLATION if d else HOLDS, m, f"{m.short}[the shared source is not delegated to]",
+                        f"`{unparse(d[0])}` delegates to the shared source: when this iteration is closed or dropped before the end (an abandoned result "
+                        f"iterator, the(...) raising MultipleSolutionFound, an exception in user code) the source is closed with it and every later "
+                        f"evaluation ranges over the prefix pulled so far only" if d else
+                        "the source is pulled element by element; leaving the iteration leaves the source open", line=d[0].lineno if d else m.lineno))
+    if n == 0:
+        raise AnalysisError("HashedIterable has no generator method")
     return out
 
 
@@ -494,19 +600,135 @@ def rule_shared_tail(db: ProgramDB) -> List[Instance]:
     m = hi.methods.get("__iter__")
     if m is None or not m.is_generator:
         raise AnalysisError("HashedIterable.__iter__ is not a generator")
-    pulls = [n for n in own_nodes(m.node) if isinstance(n, ast.For) and isinstance(n.iter, ast.Attribute) and n.iter.attr == "iterable"]
-    if not pulls:
-        raise AnalysisError("HashedIterable.__iter__: no loop over self.iterable")
-    for loop in pulls:
-        tn = {x.id for x in ast.walk(loop.target) if isinstance(x, ast.Name)}
-        records = {unparse(c.func.value) for c in ast.walk(loop) if isinstance(c, ast.Call) and call_attr(c) == "append" and c.args
+    n_pull = 0
+    records: Set[str] = set()
+    for pm in sorted(hi.methods.values(), key=lambda f: f.name):
+        if pm.cls is not hi:
+            continue
+        for loop in [n for n in own_nodes(pm.node) if isinstance(n, ast.For) and isinstance(n.iter, ast.Attribute) and n.iter.attr == "iterable"
+                     and isinstance(n.iter.value, ast.Name) and n.iter.value.id == "self"]:
+            tn = {x.id for x in ast.walk(loop.target) if isinstance(x, ast.Name)}
+            memoises = any(isinstance(a, ast.Assign) and any(isinstance(t, ast.Subscript) and unparse(t.value) == "self.values" for t in a.targets)
+                           for a in ast.walk(loop)) or any(isinstance(c, ast.Call) and call_attr(c) in ("add", "setdefault") and unparse(c.func.value) in ("self", "self.values")
+                                                           for c in ast.walk(loop))
+            if not memoises:
+                continue
+            n_pull += 1
+            rec = {unparse(c.func.value) for c in ast.walk(loop) if isinstance(c, ast.Call) and call_attr(c) == "append" and c.args
                    and {x.id for x in ast.walk(c.args[0]) if isinstance(x, ast.Name)} & tn and unparse(c.func.value).startswith("self.")}
-        replayed = {unparse(s.value) for y in own_nodes(m.node) if isinstance(y, ast.Yield) and y.value is not None
-                    for s in ast.walk(y.value) if isinstance(s, ast.Subscript) and unparse(s.value) in records}
-        ok = bool(records) and bool(replayed)
-        out.append(inst("SHARED-TAIL", HOLDS if ok else VIOLATION, m, "HashedIterable.__iter__[other iterations' pulls are replayed]",
-                        f"pulled elements are recorded in `{sorted(records)[0]}` and replayed from there by position" if ok else
-                        "an element another iteration pulls from the shared source while this one is suspended is never handed to this one (the memo is "
-                        "replayed once, at the start): two variables whose domain is the same sub-query, or two result iterators advanced "
-                        "alternately, each lose what the other pulled", line=loop.lineno))
+            records |= rec
+            ok = bool(rec)
+            out.append(inst("SHARED-TAIL", HOLDS if ok else VIOLATION, pm, f"{pm.short}[what is pulled is recorded in order]",
+                            f"pulled elements are recorded in `{sorted(rec)[0]}`" if ok else
+                            "elements pulled from the shared one-shot source into the memo here are not recorded in the ordered record live iterations "
+                            "replay: an iteration suspended at this moment (two variables whose domain is the same sub-query, two result iterators "
+                            "advanced alternately, a lookup by id in between) never sees them", line=loop.lineno))
+    if n_pull == 0:
+        raise AnalysisError("HashedIterable: no loop pulling from self.iterable into the memo found")
+    replayed = {unparse(s.value) for y in own_nodes(m.node) if isinstance(y, ast.Yield) and y.value is not None
+                for s in ast.walk(y.value) if isinstance(s, ast.Subscript) and unparse(s.value) in records}
+    ok = bool(replayed)
+    out.append(inst("SHARED-TAIL", HOLDS if ok else VIOLATION, m, "HashedIterable.__iter__[other iterations' pulls are replayed]",
+                    f"the iterator replays `{sorted(replayed)[0]}` by position" if ok else
+                    "an element another iteration pulls from the shared source while this one is suspended is never handed to this one (the memo is "
+                    "replayed once, at the start): two variables whose domain is the same sub-query, or two result iterators advanced "
+                    "alternately, each lose what the other pulled", line=m.lineno))
+    return out
+
+
+# ---------------------------------------------------------------------------------- SET-ALGEBRA
+def rule_set_algebra(db: ProgramDB) -> List[Instance]:
+    """The set operations of the value container are used to compute which variables an operator combines
+    (`left._unique_variables_.union(right._unique_variables_)`), which are unbound (`difference`) and which conclusions
+    apply.  Each is decided by its membership table: an element only in the receiver, only in the argument, in both."""
+    out = []
+    hi = db.cls("HashedIterable")
+    want = {"union": (True, True, True), "intersection": (False, False, True), "difference": (True, False, False)}
+
+    def table(e: ast.AST, env) -> Optional[Tuple[bool, bool, bool]]:
+        if isinstance(e, ast.Name) and e.id in env:
+            return env[e.id]
+        u = unparse(e)
+        if u in ("self.values.keys()", "self.values", "set(self.values)", "self.values.keys", "self"):
+            return (True, False, True)
+        if u in ("other.values.keys()", "other.values", "set(other.values)", "other"):
+            return (False, True, True)
+        if isinstance(e, ast.BinOp):
+            a, b = table(e.left, env), table(e.right, env)
+            if a is None or b is None:
+                return None
+            f = {ast.BitOr: lambda x, y: x or y, ast.BitAnd: lambda x, y: x and y, ast.Sub: lambda x, y: x and not y,
+                 ast.BitXor: lambda x, y: x != y}.get(type(e.op))
+            return tuple(f(x, y) for x, y in zip(a, b)) if f else None
+        if isinstance(e, ast.Call) and isinstance(e.func, ast.Attribute) and e.func.attr in ("union", "intersection", "difference", "symmetric_difference") \
+                and len(e.args) == 1 and not unparse(e.func.value) in ("self", "other"):
+            a, b = table(e.func.value, env), table(e.args[0], env)
+            if a is None or b is None:
+                return None
+            f = {"union": lambda x, y: x or y, "intersection": lambda x, y: x and y, "difference": lambda x, y: x and not y,
+                 "symmetric_difference": lambda x, y: x != y}[e.func.attr]
+            return tuple(f(x, y) for x, y in zip(a, b))
+        if isinstance(e, ast.Call) and dotted(e.func) in ("set", "list", "sorted", "frozenset", "tuple") and len(e.args) == 1:
+            return table(e.args[0], env)
+        if isinstance(e, (ast.DictComp, ast.SetComp, ast.ListComp)) and len(e.generators) == 1 and isinstance(e.generators[0].target, ast.Name):
+            g = e.generators[0]
+            keyexpr = e.key if isinstance(e, ast.DictComp) else e.elt
+            if unparse(keyexpr) != g.target.id:
+                return None
+            base = table(g.iter, env)
+            if base is None:
+                return None
+            for cond in g.ifs:
+                if isinstance(cond, ast.Compare) and len(cond.ops) == 1 and unparse(cond.left) == g.target.id and isinstance(cond.ops[0], (ast.In, ast.NotIn)):
+                    c = table(cond.comparators[0], env)
+                    if c is None:
+                        return None
+                    base = tuple(x and (y if isinstance(cond.ops[0], ast.In) else not y) for x, y in zip(base, c))
+                else:
+                    return None
+            return base
+        if isinstance(e, ast.Dict) and all(k is None for k in e.keys):
+            r = (False, False, False)
+            for v in e.values:
+                t = table(v, env)
+                if t is None:
+                    return None
+                r = tuple(x or y for x, y in zip(r, t))
+            return r
+        if isinstance(e, ast.Call) and dotted(e.func) == "HashedIterable":
+            for kw in e.keywords:
+                if kw.arg == "values":
+                    return table(kw.value, env)
+            return None
+        return None
+    for name, w in want.items():
+        m = hi.methods.get(name)
+        if m is None:
+            raise AnalysisError(f"HashedIterable.{name} not found")
+        env: Dict[str, Tuple[bool, bool, bool]] = {}
+        res = None
+        undec = None
+        for st in m.node.body:
+            if isinstance(st, ast.Assign) and len(st.targets) == 1 and isinstance(st.targets[0], ast.Name):
+                t = table(st.value, env)
+                if t is not None:
+                    env[st.targets[0].id] = t
+                else:
+                    env.pop(st.targets[0].id, None)
+            elif isinstance(st, ast.Return) and st.value is not None:
+                res = table(st.value, env)
+                if res is None:
+                    undec = st
+        if res is None:
+            out.append(inst("SET-ALGEBRA", UNDECIDED, m, f"HashedIterable.{name}[membership table]",
+                            f"could not derive which elements `{unparse(undec)[:60] if undec else 'the method'}` contains", line=m.lineno))
+            continue
+        ok = res == w
+        names = ("only in the receiver", "only in the argument", "in both")
+        diff = [f"an element {names[i]} is {'kept' if res[i] else 'dropped'}" for i in range(3) if res[i] != w[i]]
+        out.append(inst("SET-ALGEBRA", HOLDS if ok else VIOLATION, m, f"HashedIterable.{name}[membership table]",
+                        "membership table as the name says" if ok else
+                        f"{name}(): " + "; ".join(diff) + " - the variables an operator shares with its sibling (or a conclusion both branches draw) "
+                        "fall out of the combined set: the operator's cache and duplicate keys lose them and rows that differ only there are merged",
+                        line=m.lineno))
     return out
